@@ -94,10 +94,14 @@ package layer4
 // sets rely on: a matcher is entered frozen at the frozen offset, may only move the offset, and
 // leaves the buffer, the inner connection and its stream position alone (C06: it cannot read the
 // network and cannot change what is read later).
+// sawmore(cx): some matcher set evaluated on cx has reported "need more data" (a history ghost:
+// MatcherSet.Match records its own answer there; it lets AnyMatch's contract say that an undecided
+// set is never reported as a decided "no").
+//@ ghost sawmore(cx *Connection) bool history
 //@ func (m ConnMatcher) Match(cx *Connection) (matched bool, err error)
 //@ requires wfcx(cx) && wf(cx) && cx.matching && cx.offset == cx.frozenOffset
 //@ assigns cx.offset, cx.matching, cx.frozenOffset
-//@ modifies map:string:iface:any.has, map:string:iface:any.len, map:string:iface:any.val.tag, map:string:iface:any.val.data
+//@ modifies map:string:iface:any.has, map:string:iface:any.len, map:string:iface:any.val.tag, map:string:iface:any.val.data, ghost:sawmore
 //@ ensures wfcx(cx) && ok(cx) && cx.frozenOffset == old(cx.frozenOffset)
 //@ ensures cx.matching ==> cx.frozenOffset <= cx.offset
 //@ ensures !cx.matching ==> cx.offset == cx.frozenOffset
@@ -106,8 +110,9 @@ package layer4
 //@ requires wfcx(cx) && wf(cx) && (cx.matching ==> cx.offset == cx.frozenOffset)
 //@ requires forall i int :: 0 <= i && i < len(mset) ==> mset[i] != nil
 //@ safety C04
-//@ assigns[C06] cx.offset, cx.matching, cx.frozenOffset
+//@ assigns[C06] cx.offset, cx.matching, cx.frozenOffset, sawmore(cx)
 //@ modifies map:string:iface:any.has, map:string:iface:any.len, map:string:iface:any.val.tag, map:string:iface:any.val.data
+//@ ensures[ghost] sawmore(cx) == (old(sawmore(cx)) || err == ErrConsumedAllPrefetchedBytes)
 //@ invariant wfcx(cx) && wf(cx) && (cx.matching ==> cx.offset == cx.frozenOffset)
 //@ invariant vpos(cx) == old(vpos(cx))
 //@ invariant rangeindex >= 0 ==> !cx.matching
@@ -131,16 +136,19 @@ package layer4
 //@ requires mss != nil && validsets(*mss)
 //@ requires wfcx(cx) && wf(cx) && (cx.matching ==> cx.offset == cx.frozenOffset)
 //@ safety C04
-//@ assigns[C06] cx.offset, cx.matching, cx.frozenOffset
+//@ assigns[C06] cx.offset, cx.matching, cx.frozenOffset, sawmore(cx)
 //@ modifies map:string:iface:any.has, map:string:iface:any.len, map:string:iface:any.val.tag, map:string:iface:any.val.data
 //@ invariant wfcx(cx) && wf(cx) && (cx.matching ==> cx.offset == cx.frozenOffset)
 //@ invariant vpos(cx) == old(vpos(cx))
+//@ invariant sawmore(cx) == old(sawmore(cx))
 //@ invariant rangeindex < 0 ==> cx.matching == old(cx.matching)
 //@ invariant rangeindex < 0 ==> err == nil
 //@ invariant !old(cx.matching) ==> !cx.matching
 //@ ensures[C01] wfcx(cx) && wf(cx) && vpos(cx) == old(vpos(cx))
 //@ ensures[C01] !old(cx.matching) ==> !cx.matching
 //@ ensures[C02] len(*mss) == 0 ==> matched && err == nil
+// a set that is still undecided ends the evaluation: its "need more data" is what AnyMatch reports
+//@ ensures[C02] !old(sawmore(cx)) && sawmore(cx) ==> err == ErrConsumedAllPrefetchedBytes
 
 //@ func (m *MatchNot) Match(r *Connection) (matched bool, err error)
 //@ requires[inv] validsets(m.MatcherSets)
